@@ -26,6 +26,12 @@ NEXT Next
 INVARIANT AllOK
 CHECK_DEADLOCK FALSE
 """
+STAGE_CFG = """CONSTANTS TraceFile = "%s"
+SPECIFICATION Spec
+INVARIANTS LineOK Complete
+POSTCONDITION TraceAccepted
+CHECK_DEADLOCK FALSE
+"""
 
 
 def run(ctx):
@@ -86,6 +92,35 @@ def run(ctx):
                        "contradicts the specification: %s" %
                        (ln["proposed"], json.dumps(ln)), ln)
 
+    # the stages above GBN: Noise handshake acts, encrypted records, the
+    # websocket JSON envelope
+    stage_lines = 0
+    rc, o = run_driver(ctx, binary, "TestC07Stages", out, env={"VERIF_HANG_S": "120"})
+    if rc != 0:
+        cur = {}
+        try:
+            cur = json.load(open(os.path.join(out, "current.json")))
+        except Exception:
+            pass
+        if not gbntrace.crash_report(ctx, o, "c07stages", extra=cur,
+                                     tag="%s:%s" % (cur.get("stage", "?"), cur.get("class", "?"))):
+            raise Infra("stage driver failed:\n" + o[-2000:])
+    stp = os.path.join(out, "c07_stages.ndjson")
+    if os.path.exists(stp) and os.path.getsize(stp) > 0:
+        from vlib import printed_tuples
+        sl = read_ndjson(stp)
+        stage_lines = len(sl)
+        r = tlc(ctx, "Trace_Stages", STAGE_CFG % stp, "tr_stages", workers=1)
+        bad = printed_tuples(r["out"], "STAGE_MISMATCH")
+        for t in bad:
+            ln = sl[int(t[0]) - 1]
+            ctx.report("stage:%s:%s:%s" % (ln["stage"], ln["class"], ln["outcome"]),
+                       "%s input of class %s: outcome %s is not what Trace_Stages.tla "
+                       "allows: %s" % (ln["stage"], ln["class"], ln["outcome"], json.dumps(ln)), ln)
+        if not bad and not r["ok"]:
+            if rc == 0:
+                raise Infra("Trace_Stages failed:\n" + r["out"][-2000:])
+
     # injection into live connections
     rc, o = run_driver(ctx, binary, "TestC07Inject", out)
     if rc != 0:
@@ -104,7 +139,8 @@ def run(ctx):
     write_evidence(ctx, "model_checking", {
         "states": states, "transitions": trans,
         "traces_validated_against_impl": st["traces"] - st["rejected"] + nlines
-        + syn_lines,
+        + syn_lines + stage_lines,
+        "stage_inputs_noise_record_envelope": stage_lines,
         "evaluations": nlines + sw["evaluations"] + syn_lines + st["traces"],
         "distinct_nontrivial": nlines + syn_lines + st["traces"],
         "rule": "codec lines and SYN values are distinct inputs; each "
